@@ -30,16 +30,16 @@ def tid(n):
 
 class C19(Prop):
     id = 'C19'
-    budgets = {'quick': 3000, 'thorough': 30000}
+    budgets = {'quick': 3000, 'thorough': 12000}
     rule = ('random suite trees (depth 0-4, fan-out 0-4) over plain TestSuite / subclass / subclass with sort_tests / '
             'subclass with filter_by_ids / PlaceHolder cases, ids unique or duplicated, id subsets incl. absent ids; '
-            'thorough adds every tree with <= 5 nodes x 3 id patterns x 4 id subsets. Besides the modelled observations every case '
+            'thorough adds every tree with <= 4 nodes x 3 id patterns x 4 id subsets and every tree with 5 nodes x 1 id pattern x 2 id subsets. Besides the modelled observations every case '
             'checks two independence requirements on the real objects (a dependence is reported as a trace outside the model\'s '
             'vocabulary, i.e. a failing input): (1) caller-owned results - a foreign test is added to every suite the first '
             'filter_by_ids call created (objects not present in the tree before), then an identical fresh tree is filtered again '
             'and must give the same shape; (2) route independence - --list and --load-list are repeated with the suite reaching '
             'TestProgram unwrapped through a module load_tests hook (bare test cases and suites with their own filter_by_ids as '
-            'root included) and must list / run the same ids (done for every small case and half of the larger ones, for run time). '
+            'root included) and must list / run the same ids (done whenever the root is such an object and for half of the other cases, for run time). '
             'non-trivial = at least 2 leaves and (a non-plain suite or a duplicate id or a nested suite); distinct = distinct '
             'input S-expression')
     assumptions = ['unittest.TestSuite iteration/_tests semantics and unittest.TestProgram argument parsing are modelled, not verified',
@@ -173,9 +173,10 @@ class C19(Prop):
             return ['raised', type(e).__name__]
 
     def unwrapped_route(self, inp):
-        """is the second TestProgram route exercised for this input? (every small case, half of the larger ones: run time)"""
+        """is the second TestProgram route exercised for this input?  Always when the root is a bare test case or a suite with its
+        own filter_by_ids (the roots for which filter_by_ids returns a NEW object), for half of the other cases (run time)"""
         tree, ids = inp
-        return (len(ids) + sum(ids)) % 2 == 0 or len(str(tree)) < 60
+        return tree[0] in ('case', 'cfilter') or (len(ids) + sum(ids)) % 2 == 0
 
     # ----- generators
     def gen_tree(self, rng, depth, ids):
@@ -234,9 +235,10 @@ class C19(Prop):
                 pats = [list(range(nl, 0, -1)), list(range(1, nl + 1))]
                 if nl >= 2:
                     pats.append([1, 1] + list(range(2, nl)))
-                for pat in pats[: (1 if nl == 0 else 3)]:
+                for pat in pats[: (1 if nl == 0 or n == 5 else 3)]:      # (5 nodes: one id pattern, two id subsets - run time)
                     tree = self.assign(sh, iter(pat))
-                    for sel in ([], sorted(set(pat)), [x for x in sorted(set(pat)) if x % 2 == 0], pat[:1] + [100]):
+                    sels = ([], sorted(set(pat)), [x for x in sorted(set(pat)) if x % 2 == 0], pat[:1] + [100])
+                    for sel in (sels[2:] if n == 5 else sels):
                         yield [tree, sel]
 
     def nontrivial(self, inp, trace):
